@@ -224,9 +224,22 @@ func c05Header(c *h.Ctx) error {
 		if !bytes.Equal(sfb, k.Vals["SecurityFeatures"]) {
 			c.Fail(site+".Unmarshal", "refdecode:SecurityFeatures", fmt.Sprintf("%x", sfb), sample)
 		}
+		// a header constructed NOW is the default header, whatever was encoded or decoded before (no default object shared
+		// between headers): its encoding is the one the first default header of this run had
+		var def []byte
+		h.Guard(func() { def, _ = header.NewHeader().Marshal() })
+		c.Exec(1)
+		if c05DefaultHeader == nil {
+			c05DefaultHeader = append([]byte{}, def...)
+		} else if !bytes.Equal(def, c05DefaultHeader) {
+			c.Fail(site+".Marshal", "default-header-depends-on-history", fmt.Sprintf("NewHeader().Marshal() is %x now and was %x at the start of the run", def, c05DefaultHeader), sample)
+			c05DefaultHeader = append([]byte{}, def...)
+		}
 		return nil
 	})
 }
+
+var c05DefaultHeader []byte
 
 // ---- dialects ----
 
